@@ -27,7 +27,7 @@ macro_rules! harness_ownable {
                     && shim::event_is(0, &($crate::Symbol::new(&env, "ownership_transferred"), prev_a, new_owner.clone()), &$crate::Vec::<$crate::Val>::new(&env)),
                 "OBL C06.owner_transfer_event: the event names (previous owner, new owner)"
             );
-            assert!(inst().changed_only(&[Words::of(&OWNER_KEY)]) && pers().n_changed() == 0, "OBL C06.owner_transfer_frame");
+            assert!(inst().changed_only(&[Words::of(&OWNER_KEY)]) && pers().n_changed() == 0 && shim::n_calls() == 0 && shim::n_deploys() == 0, "OBL C06.owner_transfer_frame: nothing but the owner entry changes, no call is made");
             kani::cover!(true, "COVER ownable transfer returned");
         }
     };
@@ -58,7 +58,7 @@ macro_rules! harness_operatable {
                     && shim::event_is(0, &($crate::Symbol::new(&env, "operatorship_transferred"), prev_a, new_op.clone()), &$crate::Vec::<$crate::Val>::new(&env)),
                 "OBL C06.operator_transfer_event"
             );
-            assert!(inst().changed_only(&[Words::of(&OPERATOR_KEY)]) && pers().n_changed() == 0, "OBL C06.operator_transfer_frame");
+            assert!(inst().changed_only(&[Words::of(&OPERATOR_KEY)]) && pers().n_changed() == 0 && shim::n_calls() == 0 && shim::n_deploys() == 0, "OBL C06.operator_transfer_frame: nothing but the operator entry changes, no call is made");
             kani::cover!(true, "COVER operatable transfer returned");
         }
     };
